@@ -130,6 +130,7 @@ def gen_grp(rng):
                 out += groups(k, pfx + [i], depth + 1)
         return out
 
+    K = 10**6 if rng.random() < 0.15 else 1   # some histories at magnitudes beyond 32 bits (legal: the schema's coordinates are 64-bit)
     for _ in range(rng.randint(2, 14)):
         gs = groups(tree, [], 0)
         # prefer deep groups
@@ -148,11 +149,11 @@ def gen_grp(rng):
                 tgt = path
             else:
                 tgt = [rng.randrange(len(t))]
-            adds.append((tgt, "S", (rng.randint(-2000, 5000), rng.randint(-2000, 5000), rng.randint(0, 3000), rng.randint(0, 3000))))
+            adds.append((tgt, "S", (K * rng.randint(-2000, 5000), K * rng.randint(-2000, 5000), K * rng.randint(0, 3000), K * rng.randint(0, 3000))))
             continue
         kind = rng.choice(["tb", "sp", "cxn", "pic", "ff", "tb", "sp"] + (["chart"] if rng.random() < 0.05 else []))
-        x, y = rng.randint(-2000, 5000), rng.randint(-2000, 5000)
-        cx, cy = rng.randint(0, 3000), rng.randint(0, 3000)
+        x, y = K * rng.randint(-2000, 5000), K * rng.randint(-2000, 5000)
+        cx, cy = K * rng.randint(0, 3000), K * rng.randint(0, 3000)
         t.append(None)
         adds.append((path, kind, (x, y, cx, cy)))
     return adds
@@ -463,6 +464,18 @@ def correspond(ctx):
             if i.split(" ")[1:] == m.split(" ")[1:] and all(abs(x - y) <= 1 for x, y in zip(a, b)):
                 ctx.count("ff-float-artefact-within-1emu")
                 continue
+        if kind == "cxn-edge":
+            # the model's verdict is the schema's (proved: a move is accepted iff the resulting offsets and extents are
+            # within ST_Coordinate / ST_PositiveCoordinate): a move it accepts and the library refuses, or the reverse,
+            # is a failing input of its own
+            for st, (a, b) in enumerate(zip(i.split(";"), m.split(";"))):
+                if a.split(":")[0] != b.split(":")[0]:
+                    bx, by, ex, ey, ops = case
+                    k_, v_ = ops[st - 1]
+                    ctx.fail("connector:legal-move-" + ("refused" if a.startswith("refused") else "not-refused"),
+                             f"connector ({bx},{by})-({ex},{ey}) after {ops[:st - 1]}: {k_} = {v_} is {a.split(':')[0]} by the library; every offset and extent "
+                             f"of the result is {'inside' if b.startswith('ok') else 'outside'} the schema's range", {"kind": kind, "case": case})
+                    break
         ctx.disagree(kind, str(case), i, m)
 
 
